@@ -17,6 +17,7 @@ def check(ctx):
                "threading.Lock/networkx behave as documented; the induction from these premises to the behavioural "
                "statement is the paper argument of DESIGN.md section 4.C01")
     ctx.rule("C01.A8", "the engine evaluated as a whole (abstract interpretation of run_function_on_graph with sequentially simulated workers) on every small multigraph, failing set, max_errors, scheduler and dequeue order: a node is called only after all its predecessors were called and succeeded, and every node whose ancestors succeed is called")
+    ctx.run(E.rule_queue_is_library_queue, "C01.A5", ctx.model.one_func("run_function_on_graph", "ENGINE"))
     from .engineeval import rule_engine_evaluated
     ctx.run(rule_engine_evaluated, "C01.A8", None, ("order", "containment", "complete"))
     ctx.run(E.rule_shared_state_atomic, "C01.A2", ctx.model.one_func("run_function_on_graph", "ENGINE"))
